@@ -206,6 +206,10 @@ func golubKahanSVD(inSitu *InSitu, epsilon float64) (Matrix, Matrix, Matrix, err
   computeV := householderBidiagonalization.ComputeV{inSitu.V != nil}
 
   H, U, V, _ := householderBidiagonalization.Run(A, computeU, computeV, &inSitu.HouseholderBidiagonalization)
+  if U != nil {
+    // the Givens rotations below are accumulated from the left, i.e. on U^T
+    U = U.T()
+  }
   B := H.Slice(0,n,0,n)
 
   for p, q := 0, 0; q < n; {
